@@ -222,6 +222,8 @@ def c06_total(R):
                 detail=f"{type(ins).__name__}: no code emitted and no error raised (the instruction is silently dropped from the module)", replay=rp)
 
 
+# the backend's scalar straight-line subset (C06: "those inside ... must agree"): the operators its opcode table translates
+SUBSET_OPS = ("ADD", "SUB", "MUL", "DIV", "CMP_EQ", "CMP_LT", "CMP_GT")
 IROPS = ["ADD", "SUB", "MUL", "DIV", "MOD", "LG_AND", "LG_OR", "CMP_GT", "CMP_LT", "CMP_LE", "CMP_GE", "CMP_NE", "CMP_EQ"]
 
 
@@ -274,6 +276,9 @@ def c06_sem(R):
                         from .leb import ChunkIO
                         vis.v_Generic(ins, gctx)
                     except Exception as e:
+                        if opn in SUBSET_OPS and not (k0 == "f" and opn.startswith("CMP")):      # (there are no f32 comparison opcodes in the writer's table)
+                            # C06: programs inside the backend's scalar straight-line subset MUST agree -- refusing them is not an option
+                            return [("translates", z3.BoolVal(False), f"{opn} on {k0} operands is in the backend's scalar straight-line subset, but the handler raised {type(e).__name__}: {e}")]
                         return [("refused", z3.BoolVal(True), f"handler raised {type(e).__name__}: refusal is acceptable")]
                     code = emitted(gctx)
                     types = [I32, I32, wt(k0), wt(k1), wt(rk)]
@@ -311,7 +316,9 @@ def c06_sem(R):
                                 r = Compiler.Compiler().Compile(src, {'wasm': True})
                             out = io.BytesIO(); r.WasmModule.WriteTo(out)
                         except BaseException as e:
-                            print(src, 'refused:', type(e).__name__, e); raise SystemExit
+                            print(src, 'refused:', type(e).__name__, e)
+                            if {{must}}: print('(inside the backend subset: must be translated)'); print('REPLAY-CONFIRMED')
+                            raise SystemExit
                         l = LinearIR.Linker(); l.AddModule(r.IRModule)
                         want = VM.VirtualMachine(l.Link()).Invoke('f', a=a, b=b)
                         try:
@@ -321,7 +328,7 @@ def c06_sem(R):
                             got = 'wasmtime: ' + str(e)[:160]
                         print(src, 'f(%r, %r): VM' % (a, b), want, 'wasm', got)
                         if got != want: print('REPLAY-CONFIRMED')
-                        """, t=NSLT[k0], rt="int" if (iscmp or k0 != "f") else "float", op=NSL_OP[opn], a=int(a) if k0 != "f" else float(a), b=int(b) if k0 != "f" else float(b))
+                        """, t=NSLT[k0], rt="int" if (iscmp or k0 != "f") else "float", op=NSL_OP[opn], a=int(a) if k0 != "f" else float(a), b=int(b) if k0 != "f" else float(b), must=(clause == "translates"))
 
                 verify(R, "C06.sem.BinaryInstruction", GW + "::GenerateWasmVisitor.v_BinaryInstruction", run, replay, label=label)
 
@@ -333,7 +340,10 @@ def c06_sem(R):
             g, vis, gctx = new_gen()
             gctx.OnEnterFunction("f")
             gctx.SetReferenceToLocalMap({ins.Reference: 2})
-            vis.v_Generic(ins, gctx)
+            try:
+                vis.v_Generic(ins, gctx)
+            except Exception as e:
+                return [("translates", z3.BoolVal(False), f"a load of a scalar argument is in the backend's subset, but the handler raised {type(e).__name__}: {e}")]
             a0, a1 = ctx.int("a0"), (ctx.int("a1") if k == "i" else ctx.real("a1"))
             try:
                 locs, stack, ret = run_wasm(emitted(gctx), [a0.t, a1.t, None], [I32, wt(k), wt(k)])
@@ -362,6 +372,8 @@ def c06_sem(R):
                 results = [{"i32": I32, "f32": F32}.get(getattr(x, "name", None), str(x)) for x in getpriv(cft(f.Type), "FunctionType", "__returnTypes")]
                 vis.v_Generic(ins, gctx)
             except Exception as e:
+                if (declared, valk) in (("int", "i"), ("float", "f"), ("void", None)):
+                    return [("translates", z3.BoolVal(False), f"a return matching the declared type is in the backend's subset, but the handler raised {type(e).__name__}: {e}")]
                 return [("refused", z3.BoolVal(True), f"handler raised {type(e).__name__}: refusal is acceptable")]
             x = ctx.int("x") if valk != "f" else ctx.real("x")
             try:
@@ -558,6 +570,9 @@ def c07_structure(R):
     R.check("C07.section-order", WA + "::Module.WriteTo", order == sorted(order) and len(set(order)) == len(order) and len(order) == 11, detail=f"section writers called in the order {order}")
 
 
+N_SUBSET_PROGRAMS = 10       # the leading programs of _wasm_programs() that the backend must translate (C06: "must agree")
+
+
 def _wasm_programs():
     progs = []
     ops = ["+", "-", "*"]
@@ -606,7 +621,11 @@ def c06_e2e(R):
             r.WasmModule.WriteTo(out)
             data = out.getvalue()
         except BaseException as e:
-            continue      # refused
+            # refused -- acceptable outside the backend's subset only (the first 13 programs are inside it: int / float arithmetic and
+            # comparisons of the opcode table on parameters and int constants, straight-line, scalar result)
+            if n <= N_SUBSET_PROGRAMS:
+                bad.append((src, f"a program of the backend's scalar straight-line subset was refused: {type(e).__name__}: {str(e)[:120]}"))
+            continue
         try:
             wasmtime.Module.validate(wasmtime.Engine(), data)
         except Exception as e:
